@@ -126,6 +126,10 @@ def build(sd, idx):
         if mode == "auto":
             for k_ in [k_ for k_ in d_ if "init_state" in k_]:
                 d_.pop(k_)
+        # (a hand-written file may use any of the documented names of a key)
+        for canon_, names_ in (("rng_seed", ["rng_seed", "rng seed", "seed"]),):
+            if canon_ in d_:
+                d_[r.choice(names_)] = d_.pop(canon_)
         script = st.rdscript_from_dict(d_)
         system = script.system
     # the real-valued amounts as the engine receives them (molecules), cross-checked against the description
